@@ -315,8 +315,8 @@ def parseEntries (Q : Quirks) (rec : Parser) (c : Ctx) (kt : KeyTy) (t : Ty) (kv
     if !kt.admits kv.1 then (Out.err {}, 0) else
     mapOut (fun r => (kv.1, r)) (inCtx (enter Q c kv.1.falsy c.mode) fun c' => rec c' t kv.2)) kvs
 
-/-- one union stage under the preferences `m`: rule.py:387/403/415 `context.enter('|', options=…)`
-(the route '|' is truthy) -/
+/-- one union stage under the preferences `m`: `context.enter('|', options=…)` (the route '|' is truthy).  The two
+trial stages also pin the `invalid_*` policies to THROW (utype e7d1ed5); the model keeps them at THROW throughout. -/
 def unionStage (Q : Quirks) (rec : Parser) (c : Ctx) (ts : List Ty) (v : Val) (m : Mode) (f : Flags) :
     Out Res × Nat :=
   tryAll (fun t => inCtx (enter Q c false m) fun c' => rec c' t v) ts f
